@@ -384,6 +384,46 @@ def schema_to_struct_code(
     return "\n".join(body)
 
 
+def _referenced_definitions(schema):
+    """names that a schema refers to with "$ref", at any depth, in order of appearance"""
+    if isinstance(schema, dict):
+        ref = schema.get("$ref")
+        if isinstance(ref, str):
+            yield ref[len("#/definitions/") :]
+        for sub_schema in schema.values():
+            yield from _referenced_definitions(sub_schema)
+    elif isinstance(schema, list):
+        for sub_schema in schema:
+            yield from _referenced_definitions(sub_schema)
+
+
+def _definitions_in_dependency_order(definitions):
+    """
+    The names of the definitions, each one after the definitions it refers to, so that
+    the generated classes can be executed top to bottom. It is the given order wherever that
+    order already satisfies this. References to unknown names are ignored; within a
+    reference cycle (which no order can satisfy) a definition is visited only once.
+    """
+    ordered = []
+    started = set()
+    for root in definitions:
+        if root in started:
+            continue
+        started.add(root)
+        stack = [(root, _referenced_definitions(definitions[root]))]
+        while stack:
+            name, references = stack[-1]
+            for ref in references:
+                if ref in definitions and ref not in started:
+                    started.add(ref)
+                    stack.append((ref, _referenced_definitions(definitions[ref])))
+                    break
+            else:
+                ordered.append(name)
+                stack.pop()
+    return ordered
+
+
 @default_factories
 def schema_definitions_to_code(schema, additional_fields=list):
     """
@@ -399,10 +439,10 @@ def schema_definitions_to_code(schema, additional_fields=list):
         If you write to a file, the higher level :func:`write_code_from_schema` is preferable.
     """
     code = []
-    for name, sch in schema.items():
+    for name in _definitions_in_dependency_order(schema):
         code.append(
             schema_to_struct_code(
-                name, sch, schema, additional_fields=additional_fields
+                name, schema[name], schema, additional_fields=additional_fields
             )
         )
     return "\n\n\n".join(code)
